@@ -157,7 +157,7 @@ def make_function(spec: dict, fnid: str, env: Env, *, is_async: bool) -> Any:
             sig_parts.append(f"{name}=_DEF[{name!r}]")
     kw = "{" + ", ".join(f"{p!r}: {p}" for p in params) + "}"
     body = _body_lines(spec["body"], params)
-    fname = spec["name"]
+    fname = "_node_fn"      # the node's own name may be an illegal identifier in flaw-injection cases
     lines = [f"{'async ' if is_async else ''}def {fname}({', '.join(sig_parts)}):"]
     lines.append(f"    _E.log.append(({fnid!r}, {kw}))")
     if is_async:
@@ -173,7 +173,15 @@ def make_function(spec: dict, fnid: str, env: Env, *, is_async: bool) -> Any:
     src = "\n".join(lines)
     glob = {"_E": env, "_DEF": defaults, "_V": py_val, "_D": py_dec}
     exec(src, glob)  # noqa: S102 - generated from a closed body language
-    return glob[fname]
+    fn = glob[fname]
+    fn.__name__ = spec["name"]
+    fn.__qualname__ = spec["name"]
+    ann = spec.get("ann")
+    if ann:
+        from .type_universe import decode
+
+        fn.__annotations__ = {k: decode(v) for k, v in ann.items()}      # parameter names and "return"
+    return fn
 
 
 def _tuple_or_none(names: list[str]) -> Any:
@@ -255,7 +263,12 @@ def build_node(spec: dict, gi: int, graphs: list[Any], env: Env, *, async_bodies
 
 def build_graph(gspec: dict, gi: int, graphs: list[Any], env: Env, *, async_bodies: bool) -> Any:
     nodes = [build_node(ns, gi, graphs, env, async_bodies=async_bodies) for ns in gspec["nodes"]]
-    g = Graph(nodes, name=gspec.get("name") or f"g{gi}")
+    kwargs: dict[str, Any] = {}
+    if gspec.get("edges") is not None:
+        kwargs["edges"] = [tuple(e[:2]) if len(e) == 2 else (e[0], e[1], e[2]) for e in gspec["edges"]]
+    if gspec.get("strict"):
+        kwargs["strict_types"] = True
+    g = Graph(nodes, name=gspec.get("name") or f"g{gi}", **kwargs)
     bound = {k: py_val(v) for k, v in gspec.get("bound", [])}
     if bound:
         g = g.bind(**bound)
